@@ -139,12 +139,12 @@ Proof.
     rewrite !flat_map_app, IH. reflexivity.
 Qed.
 
-Lemma esc_space : spec_escape false [32] = [32].
-Proof. reflexivity. Qed.
+Lemma esc_space attr : spec_escape attr [32] = [32].
+Proof. destruct attr; reflexivity. Qed.
 
 Lemma no_html_seg vs :
   existsb is_html vs = false ->
-  map (seg_text true) vs = map (spec_escape false) (map (seg_text false) vs).
+  map (seg_text true) vs = map (spec_escape true) (map (seg_text false) vs).
 Proof.
   induction vs as [|v vs IH]; intros H; [reflexivity|].
   simpl in H. apply orb_false_iff in H. destruct H as [H1 H2].
@@ -154,23 +154,27 @@ Qed.
 Lemma merged_single v : merged [v] = v.
 Proof. destruct v; reflexivity. Qed.
 
-(* the declarative merge is what Python computes with (old + space) + val *)
+Lemma merged_kind vs : aval_is_html (merged vs) = existsb is_html vs.
+Proof. unfold merged. destruct (existsb is_html vs); reflexivity. Qed.
+
+(* the declarative merge is what the code computes: coercion of the plain operand when
+   either side is HTML, then (old + space) + val *)
 Lemma merged_snoc vs v :
-  vs <> [] -> merged (vs ++ [v]) = py_add (py_add (merged vs) space) v.
+  vs <> [] -> merged (vs ++ [v]) = merge_vals (merged vs) v.
 Proof.
-  intros Hne. unfold merged. rewrite existsb_app, !map_app. simpl map. simpl existsb.
+  intros Hne. unfold merge_vals. rewrite merged_kind.
+  unfold merged. rewrite existsb_app, !map_app. simpl map. simpl existsb.
   assert (Hm : forall b, map (seg_text b) vs <> []) by (intros b; destruct vs; [congruence|discriminate]).
   rewrite !join_snoc by apply Hm.
   destruct (existsb is_html vs) eqn:E; destruct v as [s|h]; unfold space; simpl;
     rewrite ?escape_is_charmap, ?esc_space, <- ?app_assoc; try reflexivity.
-  unfold spec_escape at 1. rewrite flat_map_app, flat_map_join.
-  change (flat_map esc_text_char [32]) with [32].
-  rewrite (no_html_seg vs E). rewrite <- app_assoc. reflexivity.
+  unfold spec_escape at 1. rewrite flat_map_join.
+  change (flat_map esc_attr_char [32]) with [32].
+  rewrite (no_html_seg vs E). reflexivity.
 Qed.
 
 (* left-to-right reading of the same thing *)
-Definition merge_left (v : aval) (vs : list aval) : aval :=
-  fold_left (fun acc x => py_add (py_add acc space) x) vs v.
+Definition merge_left (v : aval) (vs : list aval) : aval := fold_left merge_vals vs v.
 
 Lemma merged_fold v vs : merged (v :: vs) = merge_left v vs.
 Proof.
@@ -192,7 +196,7 @@ Qed.
 Definition acc_pair (acc : attrs) (p : str * aval) : attrs :=
   set_item (fst p)
     (match lookup (fst p) acc with
-     | Some old => py_add (py_add old space) (snd p)
+     | Some old => merge_vals old (snd p)
      | None => snd p
      end) acc.
 
